@@ -16,7 +16,7 @@ def write_if_changed(path, text):
 
 
 def run(only=None):
-    from translate import py_int2coq, py_consts2coq, py_effects2coq, py_ledger2coq, py_disp2coq, py_shift2coq, py_float2coq
+    from translate import py_int2coq, py_consts2coq, py_effects2coq, py_ledger2coq, py_disp2coq, py_shift2coq, py_float2coq, py_hilbert2coq, py_stft2coq, py_ufunc2coq, py_pol2coq, py_concat2coq, py_reader2coq
     jobs = {
         'GenUtils.v': lambda: py_int2coq.generate(os.path.join(REPO, 'utils.py'), ['next_fast_len', 'prev_fast_len']),
         'GenConsts.v': lambda: py_consts2coq.generate(REPO),
@@ -28,6 +28,12 @@ def run(only=None):
         'GenSnippet.v': lambda: py_shift2coq.generate_snippet('/repo'),
         'GenPhase.v': lambda: py_float2coq.generate('/repo'),
         'GenPhaseOrd.v': lambda: py_float2coq.generate_ord('/repo'),
+        'GenHilbert.v': lambda: py_hilbert2coq.generate('/repo'),
+        'GenStft.v': lambda: py_stft2coq.generate('/repo'),
+        'GenUfunc.v': lambda: py_ufunc2coq.generate('/repo'),
+        'GenPol.v': lambda: py_pol2coq.generate('/repo'),
+        'GenConcat.v': lambda: py_concat2coq.generate('/repo'),
+        'GenReader.v': lambda: py_reader2coq.generate('/repo'),
     }
     res = {}
     os.makedirs(GEN, exist_ok=True)
